@@ -169,6 +169,7 @@ def window_rule(rep, cfg, path, out):
     # final halving
     # table/shift pairing inside each product
     groups = {}
+    misaligned = []
     for t in Tm.subterms(allt):
         if t.op == "index" and table_name(t.args[0]) and re.match(r"g\d+$", table_name(t.args[0])):
             kk = int(table_name(t.args[0])[1:])
@@ -180,6 +181,10 @@ def window_rule(rep, cfg, path, out):
                 y = x.args[0]
                 if y.op == "shr" and Tm.is_lit(y.args[1]) and y.args[1].args[0] % 8 == 0 and y.args[1].args[0] > 0:
                     sh, core = y.args[1].args[0], y.args[0]
+                elif y.op == "shr" and Tm.is_lit(y.args[1]) and y.args[1].args[0] % 8 != 0 and not (y.args[0].op == "iadd" and y.args[1].args[0] == 1):
+                    # a digit cut at a position that is not a multiple of the window width (the only odd shift is the final halving (t+1)>>1)
+                    misaligned.append((kk, y.args[1].args[0]))
+                    continue
                 else:
                     sh, core = 0, y
                 groups.setdefault(core, set()).add((kk, sh))
@@ -189,8 +194,8 @@ def window_rule(rep, cfg, path, out):
         shifts = sorted(s for k2, s in pairs)
         if len(diffs) != 1 or shifts != [8 * i for i in range(len(shifts))]:
             bad.append(sorted(pairs))
-    rep.ob("WINDOW/%s/table-digit-pairing" % cfg.name, not bad and len(groups) >= 6,
-           "within each product, table g_K must be indexed by the digit at shift K - c with contiguous 8-bit digits; %d digit words examined; inconsistent: %s" % (len(groups), bad[:2]),
+    rep.ob("WINDOW/%s/table-digit-pairing" % cfg.name, not bad and not misaligned and len(groups) >= 6,
+           "within each product, table g_K must be indexed by the digit at shift K - c with contiguous 8-bit digits; %d digit words examined; inconsistent: %s; digits cut off the 8-bit grid (table, shift): %s" % (len(groups), bad[:2], misaligned[:3]),
            where=cfg.where(path), sample={"obligation": "WINDOW/table-digit-pairing", "groups": len(groups)})
 
 
